@@ -35,7 +35,12 @@ func newVcRun() *vcRun {
 	return &vcRun{reg: state.NewViewContexts(), issued: map[[2]int][]context.Context{}}
 }
 
-func (r *vcRun) apply(o vcOp) string {
+func (r *vcRun) apply(o vcOp) (res string) {
+	defer func() {
+		if rec := recover(); rec != nil {
+			res = "panic"
+		}
+	}()
 	hv := state.NewHeightView(primitives.BlockHeight(o.h), concView(o.v))
 	switch o.op {
 	case "for":
